@@ -108,6 +108,17 @@ def reactor_cases(rng, tier):
                   cell_bounds=[0.0, 0.1, 0.1000003, 0.33333333333, 0.6],
                   power_order=1)
     out.append(('near-coincident-power-cells', c))
+    # an un-rodded region with a small hydraulic diameter limits the step,
+    # not the (coarse) pin bundle
+    from harness.scenarios import add_regions
+    tb = add_regions(bundle_type(2, P=0.024, D=0.020, Dw=0.0035, Pw=0.3),
+                     0.6, lower=dict(model='simple', vf_coolant=0.3,
+                                     hydraulic_diameter=0.001),
+                     upper=dict(model='6node', vf_coolant=0.4,
+                                hydraulic_diameter=0.0015))
+    out.append(('region-limits-step', make_core(
+        rng, {'a1': tb}, [(1, 1, 'a1')], [0.4], gap_model='no_flow',
+        bypass_fraction=0.02)))
     cl = scenarios.core_lattice(rng, tier)
     out.append(cl[0])
     # one type, one flow rate, different powers, temperature-dependent
